@@ -35,6 +35,8 @@ def _norm(ci, s):
 
 def run(ctx):
     repo = ctx.repo
+    from . import c16 as _c16
+    _c16._operand_order(ctx, repo, 'C10.h')
     ctx.decided += [
         'C10.a every class taking part in the parameter protocols defines all three of '
         '_is_parameterized_/_parameter_names_/_resolve_parameters_ and they read the same '
